@@ -617,17 +617,30 @@ static Node gen_node(Choices &c, Ctx &ctx)
 
 static void check_inc(Ctx &ctx, bool as_u, i128 start, int64_t inc)
 {
-	json_object *j = as_u ? json_object_new_uint64((uint64_t)start) : json_object_new_int64((int64_t)start);
-	int r = json_object_int_inc(j, inc);
-	Val got = dump(j);
-	json_object_put(j);
-	i128 sum = start + (i128)inc;
-	i128 lo = -((i128)1 << 63), hi = (((i128)1) << 64) - 1;
-	i128 want = sum < lo ? lo : sum > hi ? hi : sum;
-	i128 g = got.neg ? -(i128)got.mag : (i128)got.mag;
-	if (r != 1 || g != want)
-		ctx.fail("int_inc", std::string(as_u ? "uint64" : "int64") + " node " + i128s(start) + " incremented by " + str(inc) + " reads back as " +
-		                        i128s(g) + " (return " + str(r) + "), exact/saturated sum is " + i128s(want));
+	// the node reaches its value and representation by every route: constructor, setter on a node of the other
+	// representation, setter on a node of the same representation holding an extreme value
+	for (int origin = 0; origin < 3; origin++)
+	{
+		json_object *j;
+		if (origin == 0)
+			j = as_u ? json_object_new_uint64((uint64_t)start) : json_object_new_int64((int64_t)start);
+		else
+		{
+			j = origin == 1 ? (as_u ? json_object_new_int64(-7) : json_object_new_uint64(UINT64_MAX)) : (as_u ? json_object_new_uint64(UINT64_MAX) : json_object_new_int64(INT64_MIN));
+			if ((as_u ? json_object_set_uint64(j, (uint64_t)start) : json_object_set_int64(j, (int64_t)start)) != 1)
+				ctx.fail("set-get", "set_int64/set_uint64 refused an integer node");
+		}
+		int r = json_object_int_inc(j, inc);
+		Val got = dump(j);
+		json_object_put(j);
+		i128 sum = start + (i128)inc;
+		i128 lo = -((i128)1 << 63), hi = (((i128)1) << 64) - 1;
+		i128 want = sum < lo ? lo : sum > hi ? hi : sum;
+		i128 g = got.neg ? -(i128)got.mag : (i128)got.mag;
+		if (r != 1 || g != want)
+			ctx.fail("int_inc", std::string(as_u ? "uint64" : "int64") + " node " + i128s(start) + (origin == 0 ? " (constructor)" : origin == 1 ? " (set on a node of the other representation)" : " (set on a node holding an extreme value)") +
+			                        " incremented by " + str(inc) + " reads back as " + i128s(g) + " (return " + str(r) + "), exact/saturated sum is " + i128s(want));
+	}
 }
 
 static void check_setters(Choices &c, Ctx &ctx)
